@@ -184,7 +184,7 @@ _ESC = re.compile(r"""\\(u[0-9A-Fa-f]{4}|['"bfnrt/\\])""")
 def _cls_escape_not_decoded(m, params):
     # D10 (pinned by query::tests::tab_key / carr_return): escape sequences in name selectors and string literals are
     # never decoded, so a query that spells a name or literal with an escape looks for the raw text instead
-    return bool(m.get("trace")) and m.get("check") in ("nodes", "order", "paths") and bool(_ESC.search(m.get("q", "")))
+    return bool(m.get("trace")) and m.get("check") in ("nodes", "order", "paths", "seg") and bool(_ESC.search(m.get("q", "")))
 
 
 CLASSIFIERS["deep_nesting_overflow"] = _cls_deep_nesting_overflow
